@@ -49,6 +49,7 @@ enum Op {
     SplitOff(usize),
     Extend(String),
     CloneS,
+    CloneFrom(String),
     Reserve(usize),
     ShrinkToFit,
     WriteFmt(u32),
@@ -72,6 +73,7 @@ impl Op {
             Op::SplitOff(i) => format!("split_off {}", i),
             Op::Extend(s) => format!("extend {}", hex(s.as_bytes())),
             Op::CloneS => "clone".into(),
+            Op::CloneFrom(t) => format!("clone_from {}", hex(t.as_bytes())),
             Op::Reserve(n) => format!("reserve {}", n),
             Op::ShrinkToFit => "shrink_to_fit".into(),
             Op::WriteFmt(n) => format!("write_fmt {}", n),
@@ -114,6 +116,7 @@ macro_rules! apply {
             Op::SplitOff(i) => { let o = $s.split_off(*i); format!("tail:{}", hex(o.as_bytes())) }
             Op::Extend(t) => { $s.extend(t.chars()); "unit".to_string() }
             Op::CloneS => { let c = $s.clone(); format!("copy:{}", hex(c.as_bytes())) }
+            Op::CloneFrom(t) => { let mut src = $mk; src.push_str(t); $s.clone_from(&src); "unit".to_string() }
             Op::Reserve(n) => { $s.reserve(*n); if $s.capacity() < $s.len() + *n { "short_capacity".to_string() } else { "unit".to_string() } }
             Op::ShrinkToFit => { $s.shrink_to_fit(); "unit".to_string() }
             Op::WriteFmt(n) => {
@@ -172,7 +175,7 @@ fn gen_op(rng: &mut Rng, len: usize, nchars: usize) -> Op {
         85..=90 => Op::SplitOff(pick_index(rng, len)),
         91..=92 => { let n = rng.usize_below(5); Op::Extend(text(rng, n)) }
         93 => Op::WriteFmt(rng.below(100000) as u32),
-        94 => Op::CloneS,
+        94 => if rng.chance(1, 2) { Op::CloneS } else { let n = rng.usize_below(6); Op::CloneFrom(text(rng, n)) },
         95..=96 => Op::Reserve(if rng.chance(1, 6) { usize::MAX - rng.usize_below(3) } else { rng.usize_below(100) }),
         97 => Op::ShrinkToFit,
         98 => Op::WriteFmt(rng.below(100000) as u32),
